@@ -485,6 +485,43 @@ func harnesses() []harness {
 			}
 			return []func(){mk(&r1, "a", "c"), mk(&r2, "c", "b")}, func() string { return strings.Join(append(r1.lines, r2.lines...), "; ") }
 		}},
+		{"H9 writer(DeleteVersionsTo(3)) || reader(GetImmutable(4) of a version whose root is a reference to version 3: Get, Iterator, GetProof)", func(cfg c06Cfg) ([]func(), func() string) {
+			t := prelude(cfg)
+			// version 4: a commit without writes, its root record refers to the root of version 3
+			if _, v, err := t.SaveVersion(); err != nil || v != 4 {
+				panic(fmt.Sprintf("prelude: SaveVersion = %d, %v", v, err))
+			}
+			var rw, rr rec
+			writer := func() {
+				if err := t.DeleteVersionsTo(3); err != nil {
+					rw.add("writer: DeleteVersionsTo(3): %v", err)
+				}
+			}
+			reader := func() {
+				it, err := t.GetImmutable(4)
+				if err != nil {
+					rr.add("reader GetImmutable(4): %v", err)
+					return
+				}
+				for _, k := range []string{"a", "b", "c", "d"} {
+					v, err := it.Get([]byte(k))
+					expectGet(&rr, "reader v4.Get("+k+")", v, err, c06Contents[3], k)
+				}
+				all, err := iterAll(it)
+				if err != nil || !sameMap(all, c06Contents[3]) {
+					rr.add("reader v4 iteration = %v (err %v), version content %v", all, err, c06Contents[3])
+				}
+				p, err := it.GetProof([]byte("b"))
+				if err != nil || p.GetExist() == nil || string(p.GetExist().Value) != "2" {
+					rr.add("reader v4.GetProof(b): err %v", err)
+				}
+			}
+			return []func(){writer, reader}, func() string {
+				var re rec
+				epilogue(&re, t, map[int64]map[string]string{4: c06Contents[3]})
+				return strings.Join(append(append(rw.lines, rr.lines...), re.lines...), "; ")
+			}
+		}},
 		{"H7 writer(Remove,Set,SaveVersion) || reader(GetImmutable(4) as soon as it exists: Get, Has, Iterator)", func(cfg c06Cfg) ([]func(), func() string) {
 			t := prelude(cfg)
 			var rw, rr rec
@@ -910,7 +947,7 @@ func init() {
 			"explanation_c06": "every schedule (choice sequence at lock acquisitions and storage calls) with at most the stated number of preemptions is executed on the real code; the -race build runs the same enumeration with the race detector active inside each schedule (the scheduler's hand-off uses raw futex calls from norace code and adds no happens-before edge)"}
 		res.Assumptions = []string{
 			"scheduling points: every Lock/RLock of the sync primitives used by iavl (rebuilt against the shim) and every storage call; code between two points runs atomically in the explorer (races inside such blocks are the race detector's job)",
-			"harnesses H1-H8: 2-3 threads, <= 3 operations each, one writer; H4 (export pinning vs pruning: the exporter goroutine and its channel run under the scheduler) and H5 (background pruning loop, SetCommitting/UnsetCommitting) use the rewritten export.go / nodedb.go of the sched build and are skipped (recorded in skipped_harnesses) if the rewrite does not apply to the current tree",
+			"harnesses H1-H9: 2-3 threads, <= 3 operations each, one writer; H4 (export pinning vs pruning: the exporter goroutine and its channel run under the scheduler) and H5 (background pruning loop, SetCommitting/UnsetCommitting) use the rewritten export.go / nodedb.go of the sched build and are skipped (recorded in skipped_harnesses) if the rewrite does not apply to the current tree",
 			"the storage is check/vstore (MemDB-like locking, snapshot iterators)",
 		}
 		return res
